@@ -360,7 +360,7 @@ func runE(raw json.RawMessage) *core.Violation {
 			removed = append(removed, l.name)
 			expectLive("lrem//" + l.name)
 		case "error":
-			expectLive("lerr/" + l.name + "/boom-" + l.name)
+			expectLive("lerr/" + l.name + "/boom-" + fmt.Sprint(l.idx))
 		}
 	}
 	wg.Add(1)
@@ -382,7 +382,7 @@ func runE(raw json.RawMessage) *core.Violation {
 		}
 		for _, l := range lsns {
 			if l.Rewrite == "error" {
-				ts.EventListenerError(l.name, errors.New("listen: boom-"+l.name))
+				ts.EventListenerError(l.name, errors.New("listen: boom-"+fmt.Sprint(l.idx)))
 			}
 		}
 	}()
